@@ -54,6 +54,31 @@ async fn req_sequence(ctx: &mut Ctx, seq: &[char], mode: &str, npeers: usize, ca
     for (step, op) in seq.iter().enumerate() {
         let before = taps_total(&peers);
         match op {
+            'd' => {
+                // a recv that is polled and then abandoned (timeout / select!): no reply is
+                // offered, so while a request is outstanding it parks; the lock-step state
+                // must be exactly what it was
+                let mut rv = Managed::new(sock.recv());
+                let res = rv.drive().await.unwrap_or(None);
+                drop(rv);
+                ctx.count("req_abandoned_recvs");
+                match (&awaiting, res) {
+                    (Some(_), None) => {}
+                    (None, Some(Err(_))) => {}
+                    (st, r) => {
+                        ctx.violation_with(
+                            "C08/req/recv-result-differs-from-state-machine",
+                            format!("step {step} of {seq:?}: state {st:?}, abandoned recv returned {r:?}"),
+                            case.clone(),
+                        );
+                        return;
+                    }
+                }
+                if taps_total(&peers) != before {
+                    ctx.violation_with("C08/req/out-of-turn-recv-wrote-bytes", format!("step {step}: abandoned recv wrote bytes"), case.clone());
+                    return;
+                }
+            }
             's' => {
                 let msg = rc::tagged(1, next_req, &[3, 0]);
                 let r = sim::complete(sock.send(&msg)).await;
@@ -514,6 +539,13 @@ impl Prop for C08 {
                     v.push(json!({"kind": "rep_seq", "len": len, "code": code, "avail": avail}));
                 }
             }
+            // REQ with abandoned recv calls in between (base-3 alphabet s, r, d)
+            for code in 0..3usize.pow(len as u32) {
+                let sq: Vec<char> = seq3_from_code(len, code).into_iter().map(|c| if c == 'v' { 'd' } else { c }).collect();
+                if sq.contains(&'d') {
+                    v.push(json!({"kind": "req_seq3", "len": len, "code": code, "mode": if code % 2 == 0 { "immediate" } else { "delayed" }}));
+                }
+            }
             // REP with malformed requests in between (base-3 alphabet)
             for code in 0..3usize.pow(len as u32) {
                 let sq = seq3_from_code(len, code);
@@ -545,6 +577,15 @@ impl Prop for C08 {
                 ctx.sample("rep_seq", || json!({"seq": seq.iter().collect::<String>(), "avail": s(case, "avail")}));
                 sim::run(rep_sequence(ctx, &seq, s(case, "avail"), case));
             }
+            "req_seq3" => {
+                let seq: Vec<char> = seq3_from_code(u(case, "len") as usize, u(case, "code") as usize)
+                    .into_iter()
+                    .map(|c| if c == 'v' { 'd' } else { c })
+                    .collect();
+                ctx.count("req_sequences_with_abandoned_recvs");
+                ctx.sample("req_seq3", || json!({"seq": seq.iter().collect::<String>()}));
+                sim::run(req_sequence(ctx, &seq, s(case, "mode"), 1, case));
+            }
             "rep_seq3" => {
                 let seq = seq3_from_code(u(case, "len") as usize, u(case, "code") as usize);
                 ctx.count("rep_sequences_with_malformed_requests");
@@ -570,6 +611,8 @@ impl Prop for C08 {
             ("req_recv_parked", 100),
             ("rep_recv_parked", 100),
             ("rep_sequences_with_malformed_requests", 500),
+            ("req_sequences_with_abandoned_recvs", 500),
+            ("req_abandoned_recvs", 1000),
             ("rep_malformed_requests", 1000),
             ("concurrent_runs", 160),
             ("concurrent_runs_with_overlap", 100),
